@@ -94,6 +94,8 @@ func main() {
 			atomicityScenario(seed, workers, iters, &r, fail)
 		case "percommand-shared-config":
 			perCommandScenario(seed, workers, iters, &r, fail)
+		case "fresh-key-duplex":
+			freshKeyDuplexScenario(seed, workers, iters, &r, fail)
 		case "stream-duplex":
 			duplexScenario(seed, workers, iters, &r, fail)
 		default:
@@ -689,6 +691,99 @@ func secmanScenario(seed int64, workers, iters int, r *result, fail func(string,
 	}
 	wg.Wait()
 	r.Ops = n
+}
+
+// ---- first send and first receive overlapping on a freshly keyed stream ----------
+//
+// A stream on which NO protected frame has travelled yet in either direction when it
+// is handed to a writer and a reader goroutine: a key installed directly with
+// SetSymmetricKey (what a resumed session does with the cached key) after some
+// cleartext traffic. The very first protected send and the very first protected
+// receive of each endpoint overlap; every message must arrive intact.
+func freshKeyDuplexScenario(seed int64, workers, iters int, r *result, fail func(string, ...interface{})) {
+	key := bytes.Repeat([]byte{0x42}, 32)
+	ctx := context.Background()
+	var wg sync.WaitGroup
+	var mu sync.Mutex
+	total := 0
+	for w := 0; w < workers; w++ {
+		wg.Add(1)
+		go func(w int) {
+			defer wg.Done()
+			for it := 0; it < iters; it++ {
+				a, b := net.Pipe()
+				sa, sb := stream.NewStream(a), stream.NewStream(b)
+				// cleartext prologue in both directions (feeds the handshake digests), strictly alternating
+				pro := make(chan error, 1)
+				go func() {
+					if _, err := sb.ReceiveFrame(ctx); err != nil {
+						pro <- err
+						return
+					}
+					pro <- sb.SendMessage(ctx, []byte("hello-back"))
+				}()
+				if err := sa.SendMessage(ctx, []byte("hello")); err != nil {
+					fail("prologue: %v", err)
+					return
+				}
+				if _, err := sa.ReceiveFrame(ctx); err != nil {
+					fail("prologue: %v", err)
+					return
+				}
+				if err := <-pro; err != nil {
+					fail("prologue: %v", err)
+					return
+				}
+				if err := sa.SetSymmetricKey(key); err != nil {
+					fail("key: %v", err)
+					return
+				}
+				if err := sb.SetSymmetricKey(key); err != nil {
+					fail("key: %v", err)
+					return
+				}
+				// now: writer and reader goroutine on each endpoint, all four started together
+				start := make(chan struct{})
+				var g sync.WaitGroup
+				send := func(st *stream.Stream, tag byte) {
+					defer g.Done()
+					<-start
+					for i := 0; i < 3; i++ {
+						if err := st.SendMessage(ctx, bytes.Repeat([]byte{tag + byte(i)}, 64+i)); err != nil {
+							fail("first protected send: %v", err)
+							return
+						}
+					}
+				}
+				recv := func(st *stream.Stream, tag byte) {
+					defer g.Done()
+					<-start
+					for i := 0; i < 3; i++ {
+						d, err := st.ReceiveFrame(ctx)
+						if err != nil || !bytes.Equal(d, bytes.Repeat([]byte{tag + byte(i)}, 64+i)) {
+							fail("first protected receive: err=%v", err)
+							return
+						}
+					}
+				}
+				g.Add(4)
+				go send(sa, 10)
+				go recv(sb, 10)
+				go send(sb, 50)
+				go recv(sa, 50)
+				close(start)
+				g.Wait()
+				_ = a.Close()
+				_ = b.Close()
+				tick()
+				mu.Lock()
+				total++
+				mu.Unlock()
+			}
+		}(w)
+	}
+	wg.Wait()
+	r.Ops = total
 }
 
 // ---- simultaneous send and receive on one established stream -------------------
